@@ -333,6 +333,9 @@ static void push_lvalue_range (int code) {
   if (!((--sp)->type == T_NUMBER))
     error ("*Illegal 2nd index type to range lvalue.");
 
+  /* reject 64-bit operands that do not survive the narrowing to int (exact test below) */
+  if (sp->u.number < -1 || sp->u.number > (int64_t) size + 1)
+    error ("*The 2nd index to range lvalue must be >= -1 and < sizeof(indexed value)");
   ind2 = (code & 0x01) ? (size - (int)sp->u.number) : (int)sp->u.number;
   if (++ind2 < 0 || (ind2 > size))
     error ("*The 2nd index to range lvalue must be >= -1 and < sizeof(indexed value)");
@@ -340,6 +343,8 @@ static void push_lvalue_range (int code) {
   if (!((--sp)->type == T_NUMBER))
     error ("*Illegal 1st index type to range lvalue");
 
+  if (sp->u.number < 0 || sp->u.number > size)
+    error ("*The 1st index to range lvalue must be >= 0 and <= sizeof(indexed value)");
   ind1 = (code & 0x10) ? (size - (int)sp->u.number) : (int)sp->u.number;
 
   if (ind1 < 0 || ind1 > size)
